@@ -5,10 +5,12 @@ CONSTANTS
   MaxBasis = 16
   MaxTone = 16
   MaxArrN = 7
+  Phases <- F_Phases
   Wrong = FALSE
 INVARIANT InvLen
 INVARIANT InvRealPart
 INVARIANT InvAnalytic
+INVARIANT InvMix
 INVARIANT InvLinear
 INVARIANT InvAdd
 INVARIANT InvTone
